@@ -25,6 +25,7 @@ struct Out {
     nviol: usize,
     ndrift: usize,
     checks: usize,
+    changed: usize,
 }
 
 impl Out {
@@ -282,6 +283,9 @@ fn c13(o: &mut Out, rec: &mut dyn Write, j: &J, table: &[(u32, u32, u8)], seen: 
                 o.drift(id, if *noncanon { "Conv(non-canonical)" } else { "Conv" }, format!("real {} reference {}", hex(out), hex(expect)));
             }
             if seen.insert((x.clone(), out.clone())) {
+                if x != out {
+                    o.changed += 1;
+                }
                 writeln!(rec, "{}", json!({"t": "conv", "id": id, "in": jbytes(x), "out": jbytes(out)})).unwrap();
             }
         }
@@ -352,7 +356,7 @@ fn main() {
     let records = get("--records").expect("--records");
     let corrupt: Option<i64> = get("--corrupt").map(|s| s.parse().unwrap());
     let mut rec = std::io::BufWriter::new(std::fs::File::create(records).unwrap());
-    let mut o = Out { violations: vec![], drifts: vec![], nviol: 0, ndrift: 0, checks: 0 };
+    let mut o = Out { violations: vec![], drifts: vec![], nviol: 0, ndrift: 0, checks: 0, changed: 0 };
     let mut table: Vec<(u32, u32, u8)> = Vec::new();
     let mut n = 0usize;
     let mut deep = 0usize;
@@ -433,6 +437,6 @@ fn main() {
         "{}",
         json!({"mode": mode, "vectors": n, "too_deep_vectors": deep, "container_vectors": containers, "checks": o.checks,
                "violations": o.nviol, "drifts": o.ndrift, "violation_list": o.violations, "drift_list": o.drifts,
-               "enc_records": seen_enc.len(), "conv_records": seen_conv.len(), "deep_chains": deep_res, "samples": samples})
+               "enc_records": seen_enc.len(), "conv_records": seen_conv.len(), "conv_changed": o.changed, "deep_chains": deep_res, "samples": samples})
     );
 }
